@@ -76,7 +76,12 @@ func (wal *WAL) OnStart() error {
 	if err != nil {
 		return err
 	} else if size == 0 {
-		wal.writeHeight(1)
+		// an empty head is a new log only when no file has been rotated away before it: after a
+		// rotation the marker of the current height is in the previous file, and a marker for
+		// height 1 here would hide it from the search
+		if wal.group.MaxIndex() == 0 {
+			wal.writeHeight(1)
+		}
 	} else if !endsWithNewline(wal.group.Head.Path) {
 		// A crash cut the last record. End the partial line, so that the records written from now
 		// on start on a line of their own and stay readable.
